@@ -602,6 +602,18 @@ class Executor:
         if isinstance(ty, TOpt):
             self.fail(st, ty.is_none(base.term), 'TypeError')
             base = Val(ty.elem, ty.val(base.term))
+        if isinstance(base.ty, TRec) and not idx.has_py() and idx.ty == TStr:
+            # a key that is one of a few literals (decided by the path condition)
+            cases = []
+            for f in base.ty.fields:
+                c = idx.term == C.str_lit(f)
+                g = z3.And(*(st.guards + [c])) if st.guards else c
+                if self.check(st, g) != z3.unsat:
+                    cases.append((c, self.select(base, ('f', f))))
+            self.fail(st, z3.Not(z3.Or(*[c for c, _ in cases])) if cases else z3.BoolVal(True), 'KeyError')
+            if not cases:
+                return NONE
+            return self.ite_chain(cases)
         sel = self.selector(st, base, idx)
         return self.select(base, sel)
 
@@ -684,6 +696,13 @@ class Executor:
                                           (hi.py if hi else None)],
                                base.is_list)
             raise OutsideSubset('symbolic slice of literal sequence')
+        if ty == TStr:
+            # strings are identifiers: a slice is an uninterpreted function of the
+            # text and its bounds (absent bound: -1)
+            lo = self.as_int(st, self.ev(sl.lower, st)) if sl.lower else z3.IntVal(-1)
+            hi = self.as_int(st, self.ev(sl.upper, st)) if sl.upper else z3.IntVal(-1)
+            f = z3.Function('str!slice', C.StrSort, z3.IntSort(), z3.IntSort(), C.StrSort)
+            return Val(TStr, f(base.term, lo, hi))
         if not isinstance(ty, TList):
             raise OutsideSubset('slice of %s' % ty)
         ln = ty.len(base.term)
@@ -1025,6 +1044,15 @@ class Executor:
             except OutsideSubset:
                 return z3.BoolVal(False)
             return z3.Select(cont.term, k.term)
+        if isinstance(ty, TRec) and not item.has_py() and item.ty == TStr:
+            # symbolic key: one of the declared keys, present
+            alts = []
+            for f, fty in ty.fields.items():
+                present = z3.BoolVal(True)
+                if isinstance(fty, TOpt) and f in self.reg.optional_keys.get(ty.name, ()):
+                    present = fty.is_some(ty.get(cont.term, f))
+                alts.append(z3.And(item.term == C.str_lit(f), present))
+            return z3.Or(*alts) if alts else z3.BoolVal(False)
         if isinstance(ty, TRec):
             if item.has_py():
                 if item.py not in ty.fields:
@@ -1143,7 +1171,16 @@ class Executor:
         st.pc = sub.pc if len(sub.pc) >= len(st.pc) else st.pc
         decl = self.comp_type(node, elt)
         elt  = coerce(elt, decl.elem)
+        # the same element expression over the same list is the same list: a
+        # comprehension written in a contract and the one in the code meet
+        canon = z3.Int('ci!canon')
+        ckey = (src.term.sexpr(), decl.key, z3.substitute(elt.term, (i, canon)).sexpr(),
+                tuple(z3.substitute(c, (i, canon)).sexpr() for c in conds))
+        cache = self.__dict__.setdefault('_comp_cache', dict())
+        if ckey in cache:
+            return cache[ckey]
         out  = fresh(decl, 'comp')
+        cache[ckey] = out
         n    = ty.len(src.term)
         if not conds:
             self.axioms.append(decl.len(out.term) == n)
